@@ -401,9 +401,13 @@ Sink(fn) == IF fn \in FmtWriters THEN "optOut" ELSE IF fn \in Builtins THEN Prin
 ASSUME SinkIsOption == \A fn \in WriteFns : Sink(fn) \in {"optOut", "optErr"}
 
 NIn == 3                                     \* tokens on Options.Stdin: i1 \n i2 \n i3 \n
-ArgShapes == {"flag", "noflag"}              \* Options.Args = prog -name optval rest | prog rest
-ArgList(a) == IF a = "flag" THEN <<"prog", "-name", "optval", "rest">> ELSE <<"prog", "rest">>
+\* Options.Args = prog -name optval rest | prog rest | prog | an EMPTY list that the embedder gave (not nil):
+\* the script's command line is what Options.Args says, also when it says "nothing"
+ArgShapes == {"flag", "noflag", "bare", "empty"}
+ArgList(a) == CASE a = "flag" -> <<"prog", "-name", "optval", "rest">> [] a = "noflag" -> <<"prog", "rest">>
+                [] a = "bare" -> <<"prog">> [] OTHER -> <<>>
 FlagVal(a) == IF a = "flag" THEN "optval" ELSE "def"
+FlagRest(a) == IF a \in {"flag", "noflag"} THEN <<"rest">> ELSE <<>>
 
 NoSinks == [optOut |-> <<>>, optErr |-> <<>>, hostOut |-> <<>>, hostErr |-> <<>>]
 IoIdle == ioargs = "flag" /\ sinks = NoSinks /\ inPos = 0 /\ hostInPos = 0 /\ lineStart = TRUE /\ iohist = <<>>
@@ -437,9 +441,11 @@ Read(fn) == /\ fn \in ReadFns
 FlagFns == {"flag.pkg", "flag.CommandLine"}
 ReadArgs(fn) == /\ fn \in ArgFns
                 /\ (fn \in FlagFns => \A i \in 1..Len(iohist) : iohist[i].fn \notin FlagFns)
+                \* flag.Parse() is CommandLine.Parse(os.Args[1:]): with an empty command line it faults, in compiled Go too
+                /\ (fn \in FlagFns => ioargs # "empty")
                 /\ iohist' = Append(iohist, IoRec(fn,
                        IF fn = "os.Args" THEN IoRet(0, ArgList(ioargs), "")
-                       ELSE IoRet(0, <<"rest">>, FlagVal(ioargs))))
+                       ELSE IoRet(0, FlagRest(ioargs), FlagVal(ioargs))))
                 /\ UNCHANGED <<ioargs, sinks, inPos, hostInPos, lineStart>>
 IoWrite(fn) == Len(iohist) < MaxDepth /\ Write(fn) /\ OthersThanIo
 IoRead(fn)  == Len(iohist) < MaxDepth /\ Read(fn) /\ OthersThanIo
